@@ -3,6 +3,9 @@
      parse <rtype> <msg> <pos> <lim>   -> Ok <field>... | Err short | Err form | Panic
      equnk <t1> <octets> <t2> <octets> -> all=<bool> zone=<bool>   (== inside AllRecordData / ZoneRecordData)
      optdata <code> <option data>      -> Ok <field>... | Err short | Err form   (one option through Opt::iter::<AllOptData>)
+     stdcookie <server cookie octets>  -> Some <version> <reserved> <timestamp> <hash> | None   (ServerCookie::try_to_standard)
+     svcvalue <key> <value octets>     -> Ok <field>... | Err short | Err form   (one SVCB parameter through SvcParams::iter_all)
+     svcbuild <key>=<data>,...         -> Reject | <parameter octets>   (SvcParams::from_values pushing in this order)
      optframe <code>=<data>,...        -> Reject | <OPT data>        (Opt::push of every option in turn)
      optparse <OPT data>               -> Ok <code>=<data>,... | Err short | Err form   (Opt::from_octets + iter)
    Field tokens: numbers in decimal; octets in hex (`-` = empty); names as the
@@ -92,6 +95,20 @@ let handle = function
        | Err e -> if int_of_n e = 1 then "Err short" else "Err form"
        | Panic _ -> "Panic"
        | OutOfFuel -> "OutOfFuel")
+  | ["stdcookie"; d] ->
+      (match c05_stdcookie (bytes_of_hex d) with
+       | Some v -> String.concat " " ("Some" :: List.map tok_of_fval v)
+       | None -> "None")
+  | ["svcvalue"; key; d] ->
+      (match c05_svcvalue (n_of_int (int_of_string key)) (bytes_of_hex d) with
+       | Ok v -> String.concat " " ("Ok" :: List.map tok_of_fval v)
+       | Err e -> if int_of_n e = 1 then "Err short" else "Err form"
+       | Panic _ -> "Panic"
+       | OutOfFuel -> "OutOfFuel")
+  | ["svcbuild"; l] ->
+      (match c05_svcbuild (opts_of_tok l) with
+       | None -> "Reject"
+       | Some b -> hex_of_bytes b)
   | ["optframe"; l] ->
       (match c05_optframe (opts_of_tok l) with
        | None -> "Reject"
